@@ -2,7 +2,7 @@
    About the transitions generated from optimizer.py, accountant.py, rdp.py, prv.py, gdp.py. *)
 From Coq Require Import ZArith Reals List Bool.
 From OV Require Import Base.Num Base.NumZ Base.NumR Base.Py Model.OptimState Model.OptimRef Gen.Optim
-  Proofs.OptimSM Proofs.OptimEq Proofs.OptimTrace Proofs.OptimMore Model.BmmState Gen.Bmm Proofs.BmmP.
+  Proofs.OptimSM Proofs.OptimEq Proofs.OptimTrace Proofs.OptimMore Model.BmmState Gen.Bmm Proofs.BmmP Proofs.BmmReset.
 Import ListNotations.
 
 (* After ANY program (forward/backward, steps, zero_grad, skip signals, scheduler writes; any variant;
@@ -74,6 +74,15 @@ Proof. exact (gdp_single_run s sigma q). Qed.
 Theorem C05_refused_step_keeps_ledger {T} {N : Num T} (s : ost T) sigma q s' e :
   ref_acc s sigma q = SErr s' e -> s' = s.
 Proof. exact (refused_step_keeps_ledger s sigma q s' e). Qed.
+(* accounting stays exact over any number of iterations of the batch memory manager's loader, complete or abandoned: each iteration is an
+   arbitrary program followed by the manager's clean-up (generated drop_unfinished_logical_batch), which writes no record and no event *)
+Theorem C05_accounting_exact_across_cleanups {T} {N : Num T} (neqb_sound : forall a b : T, neqb a b = true -> a = b)
+        v a (nm mgn ebs rate : T) mean secure accum (epochs : list (list (@op T))) :
+  a <> AccGDP ->
+  let s := fold_left (fun s ops => ref_drop (run ops s)) epochs (init_state v a nm mgn ebs rate mean secure accum) in
+  expand (o_hist s) = acc_list (o_events s) /\ wo false (o_events s) = true /\
+  count_inner (o_events s) = List.length (expand (o_hist s)).
+Proof. exact (accounting_exact_across_cleanups neqb_sound v a nm mgn ebs rate mean secure accum epochs). Qed.
 Example C05_refusal_nonvacuous :
   let s := upd_hist (init_state Flat AccGDP 1%Z 10%Z 1%Z 1%Z false false true) [(1, 1, 4)]%Z in
   ref_acc s 2%Z 1%Z = SErr s ValueError.
@@ -100,3 +109,4 @@ Print Assumptions C05_generated_step_is_ref.
 Print Assumptions C05_gdp_single_run.
 Print Assumptions C05_empty_batch_not_skipped.
 Print Assumptions C05_refused_step_keeps_ledger.
+Print Assumptions C05_accounting_exact_across_cleanups.
